@@ -235,6 +235,7 @@ func demuxCheck(r io.Reader, cs *caseT, bodies [][]byte) (field, detail string, 
 			return
 		}
 		d0, _ := stateDump(d)
+		var kept [][]byte // every returned body is kept and compared again after all later reads
 		for i, t := range cs.Tags {
 			tt, sz, ts, err := d.ReadTagHeader()
 			if err != nil {
@@ -266,6 +267,7 @@ func demuxCheck(r io.Reader, cs *caseT, bodies [][]byte) (field, detail string, 
 				field, detail = "body/"+sizeClass(t.Size), fmt.Sprintf("tag #%d: body of %d bytes returned for %d written, first difference at %d", i, len(b), len(bodies[i]), at)
 				return
 			}
+			kept = append(kept, b)
 			if dd, _ := stateDump(d); dd != d0 {
 				stateful = true
 			}
@@ -273,6 +275,12 @@ func demuxCheck(r io.Reader, cs *caseT, bodies [][]byte) (field, detail string, 
 		if tt, sz, ts, err := d.ReadTagHeader(); err == nil {
 			field, detail = "extra-tag", fmt.Sprintf("after the %d written tags the demuxer returns one more (type %d size %d timestamp %#x) without error", len(cs.Tags), uint8(tt), sz, ts)
 			return
+		}
+		for i, b := range kept {
+			if !bytes.Equal(b, bodies[i]) {
+				field, detail = "body-changed-by-later-read/"+sizeClass(cs.Tags[i].Size), fmt.Sprintf("tag #%d: the body returned by ReadTag was identical when returned but differs after the following reads on the same demuxer (the returned slice is overwritten)", i)
+				return
+			}
 		}
 		d.Close()
 	})
